@@ -232,6 +232,8 @@ def gen_steplib(rng, size):
                              "matcher": base["matcher"] if base["matcher"] != "re" else "parse",
                              "tokens": toks, "module": base["module"],
                              "async": False})
+    if size == "rich" and rng.random() < 0.0:
+        pass
     modules = []
     for m in range(nmods):
         sub = "sub/" if (subdir and m == nmods - 1 and nmods > 1) else ""
@@ -709,6 +711,10 @@ def gen_world(seed, overrides=None, profile=None):
         dims.update(overrides)
     so = SIZE_OPTS[dims["size"]]
     lib = gen_steplib(rng, dims["steplib"])
+    if dims.get("async_steps"):
+        for d in lib["defs"]:
+            if rng.random() < 0.4:
+                d["async"] = {"timeout": rng.choice([None, None, 1.0, 5.0])}
     pool = list(TAG_POOL) if rng.random() < 0.7 else list(PLAIN_TAGS)
     if not dims.get("allow_wip_tag", True):
         pool = [t for t in pool if t != "wip"]
@@ -782,10 +788,17 @@ def gen_script(rng, world, dims):
             ent = {"acts": gen_actions(rng, world, dims, "step"), "out": {"kind": "ok"}}
             if rng.random() < dims["p_fail"]:
                 ent["out"] = gen_outcome(rng, dims)
+            adef = None
+            for dd in world["steplib"]["defs"]:
+                if dd["id"] == st.get("def") and dd.get("async"):
+                    adef = dd
+            if adef is not None and rng.random() < 0.7:
+                ent["async"] = {"sleep": rng.choice([0.01, 0.5, 2.0, 30.0, 3600.0]) if rng.random() < 0.8 else 0,
+                                "spawn": rng.choice([0, 0, 0.2, 10.0])}
             if dims["nested"] and rng.random() < 0.15:
                 ent["acts"].append({"a": "execute_steps", "n": rng.randint(1, 2),
                                     "bad": rng.random() < 0.25})
-            if ent["acts"] or ent["out"]["kind"] != "ok":
+            if ent["acts"] or ent["out"]["kind"] != "ok" or ent.get("async"):
                 script[key] = ent
         if dims["autoretry"] and rng.random() < 0.5:
             # second/third attempt plans
